@@ -34,24 +34,28 @@
     (a) += F((b), (c), (d)) + (x) + (unsigned int)(ac); \
     (a) = lrot((a), (s));                               \
     (a) += (b);                                         \
+    WENCRY_VERIF_ROUND(5, 0, &(a));                     \
   }
 #define GG(a, b, c, d, x, s, ac)                        \
   {                                                     \
     (a) += G((b), (c), (d)) + (x) + (unsigned int)(ac); \
     (a) = lrot((a), (s));                               \
     (a) += (b);                                         \
+    WENCRY_VERIF_ROUND(5, 0, &(a));                     \
   }
 #define HH(a, b, c, d, x, s, ac)                        \
   {                                                     \
     (a) += H((b), (c), (d)) + (x) + (unsigned int)(ac); \
     (a) = lrot((a), (s));                               \
     (a) += (b);                                         \
+    WENCRY_VERIF_ROUND(5, 0, &(a));                     \
   }
 #define II(a, b, c, d, x, s, ac)                        \
   {                                                     \
     (a) += I((b), (c), (d)) + (x) + (unsigned int)(ac); \
     (a) = lrot((a), (s));                               \
     (a) += (b);                                         \
+    WENCRY_VERIF_ROUND(5, 0, &(a));                     \
   }
 
 void md5hash::getHash(const u8_t *input)
